@@ -216,6 +216,12 @@ where
                             }
                         }
 
+                        // The code is the whole text before the first `;`: `OSC 10 ; x` or
+                        // `OSC 133 ; A` are other commands, not OSC 1 with a payload that
+                        // starts inside the code.
+                        if !(param.is_empty() || param.starts_with(';')) {
+                            continue;
+                        }
                         param = param.chars().skip(1).collect();
 
                         if "01".contains(&code) {
@@ -350,6 +356,12 @@ where
                             }
                         }
 
+                        // The code is the whole text before the first `;`: `OSC 10 ; x` or
+                        // `OSC 133 ; A` are other commands, not OSC 1 with a payload that
+                        // starts inside the code.
+                        if !(param.is_empty() || param.starts_with(';')) {
+                            continue;
+                        }
                         param = param.chars().skip(1).collect();
 
                         if "01".contains(&code) {
